@@ -162,7 +162,7 @@ def match_known(known, pid, obname, cname):
     for k in known:
         if k.get("status") != "known" or k["property"] != pid:
             continue
-        if k["obligation"] == obname and re.fullmatch(k["claim"], cname):
+        if re.fullmatch(k["obligation"], obname) and re.fullmatch(k["claim"], cname):
             return k
     return None
 
